@@ -22,8 +22,12 @@
    CatchAll without default: `{} if len(o) == i else {extras}`.
    Dump side (dumpers.py): the CatchAll items are re-emitted at top level, then the tag.
    The outcome `OKCall kwargs` stands for `cls( **kwargs)` (the constructor is C09's model).
-   Per-field conversion is the Section variable `conv` (None = ParseError); for a nested
-   dataclass field it is the nested class's own loader (whose cache is that class's state).
+   Per-field conversion is the Section variable `conv`: a value, CBad (= ParseError
+   attributed to this class and field) or CNested e (the failure of a nested dataclass
+   loader, passed up unchanged); for a nested dataclass field it is the nested class's own
+   loader (whose cache is that class's state).
+   v1 AliasPath fields: a field is "found" when its top-level key is present (the sub-path is
+   assumed to exist then; its extraction is part of `conv`).
    No proofs in this file. *)
 From DW Require Export PyStr StrConv FieldsMissing.
 
